@@ -29,8 +29,8 @@ def check(run):
     run.extra["concurrent_summary"] = sc
     run.exhaustive = True
     run.rule = ("TLC checks the reset discipline on the taint model (NoForeignData; forgetting one field must fail) and enumerates every history of <= 2 (thorough: 3) "
-                "preceding requests from 17 kinds (params, optional parameter, SendFile with MaxAge, locals, view bindings, redirect with messages / input, full / partial / truncated flash cookies, query binding "
-                "with and without automatic error handling, response headers and cookies, base URL, handler error, 405) followed by each of 8 probes (plain, params, partial / short flash cookie, un-bindable query, empty catch-all, empty optional parameter, SendFile without options); each history is served "
+                "preceding requests from 20 kinds (params, views rendered without bind data of their own after ViewBind / Locals, JSONP behind a middleware that keeps working after the handler returned, optional parameter, SendFile with MaxAge, locals, view bindings, redirect with messages / input, full / partial / truncated flash cookies, query binding "
+                "with and without automatic error handling, response headers and cookies, base URL, handler error, 405) followed by each of 10 probes (a view rendered without bind data, JSONP, plain, params, partial / short flash cookie, un-bindable query, empty catch-all, empty optional parameter, SendFile without options); each history is served "
                 "from wire bytes on one recycled RequestCtx on one goroutine with GC off and the probe's observation vector (params, locals, messages, old input, bind result "
                 "and mode, route, base URL, view bindings, status, response headers, body) is compared with a fresh app's. Non-trivial = probes really served by the pooled "
                 "context of the preceding request (pointer identity). The same histories are then run by 8 goroutines at once against one app (contexts migrate "
